@@ -151,14 +151,15 @@ Lemma add_node_spec : forall nslen can s i,
   1 <= nslen -> Z.of_nat (length (nodes s)) < U32 ->
   let r := add_node fixed_cfg nslen can s i in
   0 <= r_status r /\
-  (r_status r <> 0 -> unchanged s r /\ r_id r = 0) /\
+  (r_status r <> 0 -> unchanged s r /\ r_id r = 0 /\ (r_status r = 5 -> a_bname i < 2)) /\
   (r_status r = 0 -> add_good s i r).
 Proof.
-  intros nslen can s i Hns Hsz. unfold add_node. cbn [fixed_cfg f_bname f_alloc f_dir f_psrv f_delchild f_nsguard f_selfref f_dims].
-  assert (B : forall c s', nodes s' = nodes s -> refs s' = refs s -> 0 <= c -> c <> 0 ->
-            let r := mk_res c 0 s' in 0 <= r_status r /\ (r_status r <> 0 -> unchanged s r /\ r_id r = 0) /\ (r_status r = 0 -> add_good s i r)).
-  { intros c s' Hn Hr Hc Hc0. cbn. repeat split; try assumption; try lia. }
-  repeat (dif; [apply B; (reflexivity || lia)|]).
+  intros nslen can s i Hns Hsz. unfold add_node. cbn [fixed_cfg f_bname f_alloc f_dir f_psrv f_delchild f_nsguard f_selfref f_dims f_nsname].
+  cbn [negb andb].
+  assert (B : forall c s', nodes s' = nodes s -> refs s' = refs s -> 0 <= c -> c <> 0 -> (c = 5 -> a_bname i < 2) ->
+            let r := mk_res c 0 s' in 0 <= r_status r /\ (r_status r <> 0 -> unchanged s r /\ r_id r = 0 /\ (r_status r = 5 -> a_bname i < 2)) /\ (r_status r = 0 -> add_good s i r)).
+  { intros c s' Hn Hr Hc Hc0 H5. cbn. repeat split; try assumption; try lia. }
+  repeat (dif; [apply B; first [reflexivity | lia | (intros _; apply Z.ltb_lt; assumption)]|]).
   rewrite ?andb_false_l, ?andb_true_l in *.
   (* allocation *)
   set (pr := if a_req i =? 0 then alloc (length (nodes s)) (nodes s) (ctr s) else (a_req i, ctr s)).
@@ -172,7 +173,7 @@ Proof.
       + exact Hq.
       + intros _. reflexivity. }
   destruct pr as [nid c'] eqn:Epr. cbn [fst] in Hpr. destruct Hpr as [Hfree [Hnsid [Hnz [Hreq Hauto]]]].
-  repeat (dif; [apply B; (reflexivity || lia)|]).
+  repeat (dif; [apply B; first [reflexivity | lia]|]).
   cbn [negb andb] in *.
   destruct (nslen <? ns_of nid) eqn:Hlt; [apply Z.ltb_lt in Hlt; lia|].
   rewrite Hfree. cbn [negb andb].
@@ -183,7 +184,7 @@ Proof.
   assert (G : forall rs', has_ref rs' (a_parent i, a_reftype i, nid) = true ->
               (forall x, has_ref (refs s) x = true -> has_ref rs' x = true) ->
               let r := mk_res 0 nid (mk_st (nodes s ++ [mk_node nid (a_class i) (a_bns i) (a_bname i)]) rs' c') in
-              0 <= r_status r /\ (r_status r <> 0 -> unchanged s r /\ r_id r = 0) /\ (r_status r = 0 -> add_good s i r)).
+              0 <= r_status r /\ (r_status r <> 0 -> unchanged s r /\ r_id r = 0 /\ (r_status r = 5 -> a_bname i < 2)) /\ (r_status r = 0 -> add_good s i r)).
   { intros rs' H1 H2. cbn. split; [lia|]. split; [intro; lia|]. intros _. constructor; cbn; auto. }
   destruct ((a_class i =? 1) || (a_class i =? 2)) eqn:Hcl.
   - assert (Htd : node_exists (nodes s) (a_typedef i) = true).
@@ -354,9 +355,9 @@ Inductive ev := Ev (v : view) (status id : Z) (before after : st).
 Definition ev_ok (e : ev) : Prop :=
   let '(Ev v status id b a) := e in
   0 <= status /\
-  (status <> 0 -> nodes a = nodes b /\ refs a = refs b /\ match v with VAdd _ _ _ _ => id = 0 | VOther => True end) /\
+  (status <> 0 -> nodes a = nodes b /\ refs a = refs b /\ match v with VAdd _ _ _ _ bname => id = 0 /\ (status = 5 -> bname < 2) | VOther => True end) /\
   (status = 0 -> match v with
-                 | VAdd parent psrv reftype req =>
+                 | VAdd parent psrv reftype req _ =>
                      psrv = 0 /\ id <> 0 /\ (req <> 0 -> id = req) /\
                      node_exists (nodes b) id = false /\ node_exists (nodes a) id = true /\
                      node_exists (nodes b) parent = true /\
@@ -371,7 +372,7 @@ Definition sound {I} (step : st -> I -> res) (view : I -> view) : Prop :=
     ev_ok (Ev (view i) (r_status (step s i)) (r_id (step s i)) s (r_st (step s i))) /\
     (length (nodes (r_st (step s i))) <= S (length (nodes s)))%nat.
 
-Definition an_view (i : an_item) : view := VAdd (a_parent i) (a_parent_srv i) (a_reftype i) (a_req i).
+Definition an_view (i : an_item) : view := VAdd (a_parent i) (a_parent_srv i) (a_reftype i) (a_req i) (a_bname i).
 Definition other_view {I} (i : I) : view := VOther.
 
 Lemma sound_add_node : forall nslen can, 1 <= nslen -> sound (add_node fixed_cfg nslen can) an_view.
@@ -380,7 +381,7 @@ Proof.
   destruct (add_node_spec nslen can s i Hns Hs) as [H0 [Hb Hg]].
   split.
   - cbn. split; [exact H0|]. split.
-    + intros Hne. destruct (Hb Hne) as [[Hn Hr] Hid]. auto.
+    + intros Hne. destruct (Hb Hne) as [[Hn Hr] [Hid H5]]. auto.
     + intros He. destruct (Hg He) as [A1 A2 A3 A9 A4 A5 A6 A7 A8]. repeat split; auto.
       rewrite A6, node_exists_app. cbn. rewrite Z.eqb_refl. apply orb_true_r.
   - destruct (Z.eq_dec (r_status (add_node fixed_cfg nslen can s i)) 0) as [He|Hne].
@@ -464,7 +465,10 @@ Section Items.
       rewrite P1, G4, Q1, G5, Q2, G7. reflexivity.
     - apply Z.eqb_neq in E. destruct (Hb E) as [_ [_ Hid]]. apply andb_true_iff. split.
       + destruct prev as [p|]; [|reflexivity]. destruct (Hp p eq_refl) as [_ Hf]. apply negb_true_iff, Z.eqb_neq. auto.
-      + destruct v; [apply Z.eqb_eq; exact Hid | reflexivity].
+      + destruct v as [? ? ? ? bname|]; [|reflexivity]. destruct Hid as [Hid H5].
+        rewrite (proj2 (Z.eqb_eq _ _) Hid). cbn [andb].
+        destruct (st =? 5) eqn:E5; [|reflexivity]. apply Z.eqb_eq in E5. cbn [negb orb].
+        apply Z.ltb_lt. auto.
   Qed.
 
   Lemma oracle_items_run : forall items s prev dl s0,
@@ -806,6 +810,11 @@ Definition w_selfref : case := mk_case 2 true 0 w_nodes w_refs [RAddRefs [AR 85 
 (* variable attributes with ArrayDimensions = null *)
 Definition w_dims : case := mk_case 2 true 0 w_nodes w_refs [RAddNodes [AN 85 0 47 0 0 0 10 2 2 true true 62]].
 
+(* a browse name in namespace 2 under a valid parent, then the same name again *)
+Definition w_nsname : case := mk_case 3 true 0 w_nodes w_refs
+  [RAddNodes [AN 85 0 35 0 0 2 10 1 1 true false 58]; RAddNodes [AN 85 0 35 0 0 2 10 1 1 true false 58];
+   RAddNodes [AN 85 0 35 0 0 0 10 1 1 true false 58]].
+
 Ltac valid_case := unfold valid; cbn; repeat split; try lia; vm_compute; reflexivity.
 Ltac refute w := exists w; split; [valid_case | vm_compute; reflexivity].
 
@@ -817,6 +826,24 @@ Theorem legacy_refuted_delchild : exists c, valid c /\ oracle c (run_with Legacy
 Theorem legacy_refuted_nsguard : exists c, valid c /\ oracle c (run_with Legacy.no_nsguard c) = false. Proof. refute w_nsguard. Qed.
 Theorem legacy_refuted_selfref : exists c, valid c /\ oracle c (run_with Legacy.no_selfref c) = false. Proof. refute w_selfref. Qed.
 Theorem legacy_refuted_dims : exists c, valid c /\ oracle c (run_with Legacy.no_dims c) = false. Proof. refute w_dims. Qed.
+
+Theorem legacy_refuted_nsname : exists c, valid c /\ oracle c (run_with Legacy.no_nsname c) = false.
+Proof. refute w_nsname. Qed.
+(* repaired: Good, then BadBrowseNameDuplicated for the same qualified name, then Good for the same
+   name in namespace 0; before: BadBrowseNameInvalid twice *)
+Example w_nsname_fixed :
+  oracle w_nsname (run w_nsname) = true /\
+  firstn 3 (run w_nsname) = [0; N1 0; 1] /\ firstn 6 (skipn 54 (run w_nsname)) = [6; 0; 0; 0; N1 1; 1] /\
+  run_with Legacy.no_nsname w_nsname = 5 :: 0 :: 0 :: 5 :: 0 :: 0 :: skipn 6 (run_with Legacy.no_nsname w_nsname).
+Proof. repeat split; vm_compute; reflexivity. Qed.
+
+Theorem browse_name_invalid_only_if_empty : forall nslen can s i,
+  1 <= nslen -> Z.of_nat (length (nodes s)) < U32 ->
+  r_status (add_node fixed_cfg nslen can s i) = 5 -> a_bname i < 2.
+Proof.
+  intros nslen can s i Hns Hsz H5. destruct (add_node_spec nslen can s i Hns Hsz) as [_ [Hb _]].
+  apply Hb; [lia | exact H5].
+Qed.
 
 (* the hypotheses are satisfiable by non-trivial cases, and on them the repaired model behaves *)
 Example w_delchild_valid : valid w_delchild /\ oracle w_delchild (run w_delchild) = true.
